@@ -133,6 +133,10 @@ def once_per_use(ctx, facts, roles, p, cfg, name, e, K2="K2", K3="K3"):
     return u
 
 
+def OD_unknown(v):
+    return v[0] == "unknown" or any(isinstance(x, tuple) and OD_unknown(x) for x in v[1:])
+
+
 def at_most_once(ctx, facts, roles, u, name, cfg, K2="K2"):
     """No operand of the operand list is evaluated twice: evaluation sites whose operand descriptors are not
     disjoint must not both run for the same operand (rules/operands.py)."""
@@ -251,7 +255,8 @@ def at_most_once(ctx, facts, roles, u, name, cfg, K2="K2"):
             if not co:
                 ctx.ok(K2 + ".at-most-once", "%s: %s / %s never run for the same operand (%s)" % (name, s1.where(), s2.where(), cfg), nontrivial=True)
                 continue
-            if d1.kind == "unknown" or d2.kind == "unknown":
+            view_unknown = lambda d_: d_.kind == "unknown" or (d_.view is not None and OD_unknown(d_.view))
+            if (view_unknown(d1) or view_unknown(d2)) and not same_iter:
                 ctx.unread(K2 + ".at-most-once", "%s: %s ~ %s (%s)" % (name, s1.where(), s2.where(), cfg), "cannot tell which operands the evaluations at %s (%s) and %s (%s) denote" % (s1.where(), d1, s2.where(), d2), where=s2.where(), fn=b2.key)
                 continue
             ctx.fail(K2 + ".per-element", "%s: evaluate at %s and at %s (%s)" % (name, s1.where().rsplit(":", 1)[0], s2.where().rsplit(":", 1)[0], cfg),
